@@ -218,6 +218,39 @@ def _hypothesis_search(mod, camp, tier, seed, examples, stage2=False):
     prop()
 
 
+def _run_isolated(mod, case):
+    """run_case in a forked child: a candidate that makes the code under test abort must not take the check down.
+    Returns the list of (signature, detail); a child killed by a signal yields one process-crash entry."""
+    r, w = os.pipe()
+    sys.stdout.flush()
+    sys.stderr.flush()
+    pid = os.fork()
+    if pid == 0:
+        code = 0
+        try:
+            os.close(r)
+            try:
+                fails = mod.run_case(case).failures
+            except Exception as e:  # a candidate the check cannot run is "not failing"
+                fails = [("__exception__", "%s: %s" % (type(e).__name__, e))]
+            with os.fdopen(w, "w") as f:
+                json.dump(fails, f, default=str)
+        except BaseException:
+            code = 3
+        finally:
+            os._exit(code)
+    os.close(w)
+    with os.fdopen(r) as f:
+        data = f.read()
+    _, status = os.waitpid(pid, 0)
+    if os.WIFSIGNALED(status):
+        return [("process-crash:signal%d" % os.WTERMSIG(status), "the process running this case died")]
+    try:
+        return [tuple(x) for x in json.loads(data)]
+    except ValueError:
+        return []
+
+
 def _shrink(mod, case, sig, budget_s):
     """Greedy delta-debugging over the check's own candidate generator."""
     gen = getattr(mod, "shrink_candidates", None)
@@ -238,11 +271,7 @@ def _shrink(mod, case, sig, budget_s):
                 break
             if canon(cand) == canon(cur):
                 continue
-            try:
-                r = mod.run_case(cand)
-            except Exception:
-                continue
-            if any(s == sig for s, _ in r.failures):
+            if any(s == sig for s, _ in _run_isolated(mod, cand)):
                 cur = cand
                 improved = True
                 break
@@ -327,13 +356,10 @@ def finish(mod, camp):
             continue
         small = case if sig.startswith("process-crash") else _shrink(mod, case, sig, shrink_budget)
         if small is not case:
-            try:
-                for s2, d2 in mod.run_case(small).failures:
-                    if s2 == sig:
-                        detail = d2
-                        break
-            except Exception:
-                small = case
+            for s2, d2 in _run_isolated(mod, small):
+                if s2 == sig:
+                    detail = d2
+                    break
         # re-classify the shrunk case: it must not have drifted into a known finding
         os.makedirs(os.path.join(OUT, "replay", mod.PID), exist_ok=True)
         safe = "".join(ch if ch.isalnum() or ch in "-_." else "_" for ch in sig)[:80]
